@@ -4,11 +4,16 @@ import Verif.Model.AcmeConc
   Line-protocol driver for C10 (ACME object state machine).
 
   One history per line: `ops=<op>;<op>;…` (other fields, e.g. `case=`, are ignored). Ops:
-    n:<acct>:<now>:<k.k.…|->          new order, k = number of challenges of each identifier
+    n:<acct>:<now>:<k.k.…|->          new order, k = number of challenges of each identifier (`1a`: one device-attest-01)
+    t:<acct>:<chal>:<authz>:<now>:<s<k>|j|t|d>  respond to a device-attest-01 challenge through the URL of <authz>;
+                                      s<k>: valid attestation of key number k
     r:<acct>:<chal>:<now>:<s|t|j|d>   respond to a challenge; validator verdict success / retry / reject / db error
+    w:<acct>:<chal>:<now>:<s|j|d>     respond to a wire-oidc-01 challenge (token verifies / does not / db error)
+    W:<acct>:<chal>:<now>:<s|j|d>     the same for a wire-dpop-01 challenge
     a:<acct>:<authz>:<now>            get authorization
     o:<acct>:<order>:<now>            get order
-    f:<acct>:<order>:<now>:<c><g><u>  finalize; CSR names match, signing succeeds, final UpdateOrder fails (0/1 each)
+    f:<acct>:<order>:<now>:<key>:<c><g><u>  finalize with a CSR made with key number <key>; CSR names match, the authority
+                                      signs, final UpdateOrder fails (0/1 each)
     l:<acct>:<urlacct>:<now>          list the account's orders
   any op may carry a storage fault suffix `!c<k>` / `!a<k>` / `!o<k>`: every update write of
   challenge / authorization / order k fails while the request runs
@@ -16,7 +21,9 @@ import Verif.Model.AcmeConc
   (Verif.AcmeConc) instead: output `conc<certificates>:<stored status after every step>`.
   Output: `T<total certificates>:<step>|<step>|…`, one step per op:
     `<resp>/<order statuses>/<certificates per order>/<authz statuses>/<challenge statuses>`
-  statuses are letters p r v i in id order, certificate counts are joined by '.'.
+  statuses are letters p r v i in id order (upper case + key number: the authorization carries that key's fingerprint),
+  certificate counts are joined by '.'; a fifth field lists the stored Wire tokens (`o<order>` OIDC,
+  `d<order>` DPoP) when there are any.
 -/
 open Verif Verif.AcmeSM
 
@@ -25,21 +32,38 @@ namespace C10
 def nat? (t : String) : Option Nat := t.toNat?
 def bit? (c : Char) : Option Bool := if c = '1' then some true else if c = '0' then some false else none
 
+/-- `3` = three ordinary challenges, `1a` = one device-attest-01 challenge -/
+def idSpec? (k : String) : Option (Nat × Bool) :=
+  match k.toList.reverse with
+  | 'a' :: r => (String.ofList r.reverse).toNat?.map fun n => (n, true)
+  | _ => k.toNat?.map fun n => (n, false)
+
 def op? (t : String) : Option Op :=
   match t.splitOn ":" with
   | ["n", a, n, ks] => do
-    let ks ← if ks = "-" then some [] else (ks.splitOn ".").mapM nat?
+    let ks ← if ks = "-" then some [] else (ks.splitOn ".").mapM idSpec?
     pure (.newOrder (← nat? a) (← nat? n) ks)
+  | ["t", a, c, z, n, o] => do
+    let out ← match o with
+      | "s" => some Outcome.success | "t" => some .retry | "j" => some .reject | "d" => some .dbError
+      | _ => if o.startsWith "s" then ((o.drop 1).toString.toNat?).map Outcome.successKey else none
+    pure (.attest (← nat? a) (← nat? c) (← nat? z) (← nat? n) out)
   | ["r", a, c, n, o] => do
     let out ← match o with
       | "s" => some Outcome.success | "t" => some .retry | "j" => some .reject | "d" => some .dbError
       | _ => none
     pure (.respond (← nat? a) (← nat? c) (← nat? n) out)
+  | [w, a, c, n, o] => do
+    let dpop ← if w = "w" then some false else if w = "W" then some true else none
+    let out ← match o with
+      | "s" => some Outcome.success | "t" => some .retry | "j" => some .reject | "d" => some .dbError
+      | _ => none
+    pure (.wire (← nat? a) (← nat? c) (← nat? n) dpop out)
   | ["a", a, z, n] => do pure (.getAuthz (← nat? a) (← nat? z) (← nat? n))
   | ["o", a, o, n] => do pure (.getOrder (← nat? a) (← nat? o) (← nat? n))
-  | ["f", a, o, n, fl] =>
+  | ["f", a, o, n, k, fl] =>
     match fl.toList with
-    | [c, g, u] => do pure (.finalize (← nat? a) (← nat? o) (← nat? n) (← bit? c) (← bit? g) (← bit? u))
+    | [c, g, u] => do pure (.finalize (← nat? a) (← nat? o) (← nat? n) (← nat? k) (← bit? c) (← bit? g) (← bit? u))
     | _ => none
   | ["l", a, u, n] => do pure (.listOrders (← nat? a) (← nat? u) (← nat? n))
   | _ => none
@@ -72,13 +96,20 @@ def respS : Resp → String
   | .badCSR => "badcsr"
   | .malformed => "malformed"
   | .ise => "ise"
+  | .refused => "refused"
+  | .deactivated => "deactivated"
+  | .notImplemented => "notimpl"
 
 def dump (s : Store) : String :=
   let os := String.join (s.orders.map (stS ·.status))
   let cs := dots ((List.range s.orders.length).map fun o => (s.certs.filter (·.order == o)).length)
-  let az := String.join (s.authzs.map (stS ·.status))
+  let az := String.join (s.authzs.map fun a => match a.fp with
+    | some k => (stS a.status).toUpper ++ toString k
+    | none => stS a.status)
   let ch := String.join (s.chals.map (stS ·.status))
-  s!"{os}/{cs}/{az}/{ch}"
+  let tk := (List.range s.orders.length).flatMap fun o =>
+    (if s.tokens.contains (o, false) then [s!"o{o}"] else []) ++ (if s.tokens.contains (o, true) then [s!"d{o}"] else [])
+  if tk.isEmpty then s!"{os}/{cs}/{az}/{ch}" else s!"{os}/{cs}/{az}/{ch}/" ++ ".".intercalate tk
 
 def cstS : AcmeConc.CStatus → String
   | .ready => "r" | .processing => "c" | .valid => "v" | .invalid => "i"
@@ -96,7 +127,39 @@ def evalConc (fs : List String) (mode : String) : Option String := do
   let w : AcmeConc.W := { ths := ths }
   pure s!"conc{(AcmeConc.exec m w sched).g.certs}:{String.join ((AcmeConc.trace m w sched).map cstS)}"
 
+/-- `aops=` lines: histories with accounts (stage `router`): `A` new account, `x:<acct>` deactivate,
+    `k:<acct>` key-change, any other token is a request of the account named in it -/
+def areq? (t : String) : Option AReq :=
+  if t = "A" then some .newAccount
+  else match t.splitOn ":" with
+    | ["x", a] => (nat? a).map .deactivate
+    | ["k", a] => (nat? a).map .keyChange
+    | _ => (req? t).map fun r => .req r.1 r.2
+
+def evalA (body : String) : Option String := do
+  let ops ← if body = "" then some [] else (body.splitOn ";").mapM areq?
+  let (a, outs) := ops.foldl (fun (acc : AStore × List String) rq =>
+    let (a', r) := astep acc.1 rq
+    (a', (respS r ++ "/" ++ dump a'.s ++ "/" ++ String.join (a'.accts.map fun b => if b then "v" else "d")) :: acc.2)) (({} : AStore), [])
+  pure s!"R{a.s.certs.length}:{"|".intercalate outs.reverse}"
+
+/-- `site=<x-hex of the site string> n=<k>`: the k-th occurrence (from 1) of a status-writing site
+    found in the source; `sites=all`: how many the table lists -/
+def evalSite (fs : List String) (site : String) : Option String := do
+  if site = "all" then
+    return s!"sites:{(statusSites.map (·.2.1)).foldl (· + ·) 0}"
+  let bytes ← if site.startsWith "x" then unhex (site.drop 1).toString else none
+  let name := String.ofList (bytes.map Char.ofNat)
+  let n ← ((← fs.find? (·.startsWith "n=")).drop 2).toString.toNat?
+  match statusSites.find? (·.1 == name) with
+  | some e => pure (if n ≤ e.2.1 then "site:known" else "site:unknown-site")
+  | none => pure "site:unknown-site"
+
 def eval (line : String) : Option String := do
+  if let some f := (fields line).find? (·.startsWith "site=") then
+    return ← evalSite (fields line) (f.drop 5).toString
+  if let some f := (fields line).find? (·.startsWith "aops=") then
+    return ← evalA (f.drop 5).toString
   if let some c := (fields line).find? (·.startsWith "conc=") then
     return ← evalConc (fields line) (c.drop 5).toString
   let f ← (fields line).find? (·.startsWith "ops=")
